@@ -47,3 +47,12 @@ Print Assumptions C19_edge_eq_hash.
 Print Assumptions C19_qubit_eq_name.
 Print Assumptions C19_qubit_eq_hash.
 Print Assumptions C19_unique_in_order.
+
+(* which OBJECT is kept.  For ANY equivalence on the elements -- equal-but-distinct objects such as an edge given in both
+   directions, 1 and 1.0 -- the result is `nub`, whose definition keeps the head and removes the later members of its class:
+   every class is represented by its FIRST member, at the position of that member. *)
+Theorem C19_unique_in_order_keeps_first_object : forall (A : Type) (eqb : A -> A -> bool),
+  (forall x y, eqb x y = eqb y x) -> (forall x y z, eqb x y = true -> eqb y z = true -> eqb x z = true) ->
+  forall l, unique_in_order eqb l = nub eqb l.
+Proof. exact @unique_in_order_nub_equiv. Qed.
+Print Assumptions C19_unique_in_order_keeps_first_object.
